@@ -34,7 +34,7 @@ DecBoolean(s) == LET b == <<1>> \o s  t == Tlv(b, 1, Len(b)) IN
 (* BIT STRING: first content octet = unused bits 0..7 (0 when there are no data octets); the unused bits of the last octet are zero *)
 DecBitString(s) == LET b == <<3>> \o s  t == Tlv(b, 1, Len(b)) IN
                    IF ~t.ok \/ t.len = 0 THEN Bad
-                   ELSE IF t.len = 1 THEN [ok |-> FALSE, val |-> <<>>, used |-> -2]        \* the empty bit string: the library's interfaces do not carry it (tolerated)
+                   ELSE IF t.len = 1 THEN (IF b[t.body] # 0 THEN Bad ELSE [ok |-> TRUE, val |-> <<0>>, used |-> t.next - 1])      \* the empty bit string, 03 01 00 -- what asn1_bit_string_to_der writes for 0 bits
                    ELSE LET u == b[t.body]  data == Sub(b, t.body + 1, t.next - 1) IN
                         IF u > 7 \/ (Len(data) = 0 /\ u # 0) THEN Bad
                         ELSE IF Len(data) > 0 /\ data[Len(data)] % (2 ^ u) # 0 THEN [ok |-> FALSE, val |-> <<>>, used |-> -2]      \* non-zero padding bits: tolerated
